@@ -1314,12 +1314,23 @@ def is2(F, R):
     def _opt_field(q):
         """the field an Option-typed term is (a copy of): (*self).free_clusters_count, or a local `let free = self.free_clusters_count`"""
         q = strip_refs(q)
-        for _k in range(3):
+        for _k in range(4):
             if q[0] == "var":
                 ds_ = var_def_terms(fv, q[1])
                 if len(ds_) != 1:
                     return None
                 q = strip_refs(ds_[0])
+            elif q[0] == "place" and strip_refs(q[1])[0] == "var" and q[2] and str(q[2][0]).isdigit():
+                # a component of a tuple built on the spot: `match (self.free_clusters_count, self.next_free_cluster) { .. }`
+                ds_ = var_def_terms(fv, strip_refs(q[1])[1])
+                if len(ds_) == 1 and strip_refs(ds_[0])[0] == "agg" and strip_refs(ds_[0])[1] == "Tuple" and int(q[2][0]) < len(strip_refs(ds_[0])[3]):
+                    rest_ = tuple(q[2][1:])
+                    el_ = strip_refs(strip_refs(ds_[0])[3][int(q[2][0])])
+                    q = el_ if not rest_ else ("place", el_, rest_)
+                else:
+                    break
+            else:
+                break
         return last_field(q) if q[0] == "place" else None
 
     def unknown(field):
